@@ -149,7 +149,7 @@ def run(tier, seed):
                 "distinct_nontrivial = distinct lines that produced code or had to be rejected")
     for name, gen in (("relative", lambda: cases_rel(tier, seed)), ("indirect", cases_indirect)):
         cases = list(gen())
-        res = e1.run_block(rep, cases, cfgs, extra_check=extra_check, validate_tag=PROP)
+        res = e1.run_block(rep, cases, cfgs, extra_check=extra_check, validate_tag=PROP, fit_retry=True)
         rep.bounds[name] = len(cases)
         for smp in res[:3]:
             rep.sample(smp)
